@@ -12,7 +12,7 @@ fn main() {
             let idn = props::c09::identity("B", scheme);
             let msg = [0x11u8; 32];
             let sig = idn.sk.sign_with_options(&msg, idn.opts.clone());
-            match sig { Ok(s) => println!("{scheme}: signed; verify={} ", idn.pk.verify(&s, &msg)), Err(e) => println!("{scheme}: sign failed {e}") }
+            match sig { Ok(s) => outln!("{scheme}: signed; verify={} ", idn.pk.verify(&s, &msg)), Err(e) => outln!("{scheme}: sign failed {e}") }
             use bc_envelope::prelude::*;
             let mut fails = (0, 0, 0);
             for i in 0..300 {
@@ -26,7 +26,7 @@ fn main() {
                 if e2.has_signature_from(&idn.pk).ok() != Some(true) { fails.2 += 1 }
                 let _ = s0;
             }
-            println!("   300 signatures: fresh-verify failures={} in-envelope failures={} after-roundtrip failures={}", fails.0, fails.1, fails.2);
+            outln!("   300 signatures: fresh-verify failures={} in-envelope failures={} after-roundtrip failures={}", fails.0, fails.1, fails.2);
         }
         return;
     }
@@ -34,7 +34,7 @@ fn main() {
         use bc_envelope::prelude::*;
         let (_, pk) = explore::x_keys();
         let sm = bc_components::SealedMessage::new_opt(bind::key0().to_cbor_data(), &pk, None::<Vec<u8>>, Some(&bind::nonce0()));
-        println!("{}", hex::encode(sm.to_cbor_data())); return;
+        outln!("{}", hex::encode(sm.to_cbor_data())); return;
     }
     let mut tier = match std::env::var("VERIF_TIER").ok().as_deref() { Some("thorough") => Tier::Thorough, _ => Tier::Quick };
     let mut replay = None;
